@@ -944,6 +944,35 @@ fn run_truncate(
                 )));
                 return out;
             }
+            // ... and no row of a complete packet before the cut is missing: every row of the full run
+            // whose leading offset lies below the boundary must be there
+            let row_off = |l: &str| -> Option<u64> {
+                let t = l.trim_start();
+                let head = t.split(':').next()?.trim();
+                let head = head.strip_prefix("0x").or_else(|| head.strip_prefix("0X")).unwrap_or(head);
+                if head.is_empty() || head.len() > 12 || !head.chars().all(|c| c.is_ascii_hexdigit()) {
+                    return None;
+                }
+                u64::from_str_radix(head, 16).ok()
+            };
+            let need = u_rows
+                .iter()
+                .enumerate()
+                .filter(|(_, l)| row_off(l).map_or(false, |o| o < boundary))
+                .map(|(i, _)| i + 1)
+                .max()
+                .unwrap_or(0);
+            if rows.len() < need {
+                out.fail = Some(tag(Fail::new(
+                    "truncation",
+                    "view-rows-missing",
+                    format!(
+                        "the truncated run prints {} rows; the full run's rows for complete packets before the cut (offsets < {boundary:#X}) number {need}",
+                        rows.len()
+                    ),
+                )));
+                return out;
+            }
             continue;
         }
         let t_errs = oracle::error_msgs(&r.stderr);
